@@ -20,8 +20,8 @@ package txwatcher
 //@ ghost firstSeen uint32
 //@ ghost lookupOK bool
 //@ ghost reported bool
-//@ ghost csvReported bool
 //@ ghost cancelSeen bool
+//@ ghost csvCalledBack bool
 
 //@ interface BlockchainRpc.GetBlockHeight
 //@ ensures result1 == nil ==> ghost.tipH == result0
@@ -48,23 +48,56 @@ package txwatcher
 //@ requires l != nil
 //@ ensures @C20 mature-means-deep: result0 ==> (result1 == nil && ghost.txoutSeen && ghost.txoutConfs >= csv)
 //@ ensures @C20 answer-used: result1 == nil ==> (ghost.txoutSeen && (result0 <==> ghost.txoutConfs >= csv))
+//@ sets ghost.checkedCsv = csv
 //@ assigns ghost.txoutSeen, ghost.txoutConfs, ghost.txoutBest
 
-// the CSV callback: only for an output that is at least csv blocks deep
+// the CSV callback: only for an output whose gettxout answer shows at least the
+// csv confirmations the check was asked for (the registered csv of the entry),
+// only for an entry that was taken off the watch list first (so that it is
+// reported at most once, also when two checks run concurrently), and
+// C18: never while the watcher's lock is held. The callback takes the swap's
+// mutex; an action that registers a watch holds that mutex and then takes the
+// watcher's lock (lock order: swap mutex before watcher lock)
 //@ callback BlockchainRpcTxWatcher.csvPassedCallback
-//@ requires @C20,in:csv mature-at-registration: ghost.txoutSeen && mi(ghost.txoutConfs) >= mi(csv)
-//@ requires @C20,in:blockheight mature-on-block: has(recv.csvtxWatchList, swapId) && ghost.txoutSeen && mi(ghost.txoutConfs) >= mi(recv.csvtxWatchList[swapId].Csv)
-//@ sets ghost.csvReported = (result == nil)
+//@ requires @C18 not-under-the-watcher-lock: !holds(&recv.Mutex)
+//@ requires @C20 mature-when-reported: ghost.txoutSeen && mi(ghost.txoutConfs) >= mi(ghost.checkedCsv)
+//@ requires @C20 claimed-before-reported: ghost.claimedOK && ghost.claimedId == swapId
+//@ sets ghost.csvCalledBack = true
 //@ assigns nothing
 
-// registration: either the callback already reported maturity (then nothing is
-// registered, so that it is not reported again), or the output is on the watch
-// list with the data given (C07: a maker's refund watch is never silently dropped)
-//@ func (*BlockchainRpcTxWatcher).AddWaitForCsvTx
+//@ ghost checkedCsv uint32
+//@ ghost claimedOK bool
+//@ ghost claimedId string
+
+// taking an entry off the list succeeds for at most one caller
+//@ func (*BlockchainRpcTxWatcher).claimCsvEntry
+//@ property C20
+//@ requires s != nil && s.csvtxWatchList != nil && !holds(&s.Mutex)
+//@ ensures @C20 claimed-iff-listed: result == old(has(s.csvtxWatchList, swapId))
+//@ ensures @C20 off-the-list: !has(s.csvtxWatchList, swapId)
+//@ sets ghost.claimedOK = result
+//@ sets ghost.claimedId = swapId
+//@ assigns s.csvtxWatchList[swapId]
+
+//@ func (*BlockchainRpcTxWatcher).restoreCsvEntry
 //@ property C20 C07
-//@ requires l != nil && l.csvtxWatchList != nil && !ghost.csvReported
-//@ ensures @C20 at-most-once: ghost.csvReported ==> (has(l.csvtxWatchList, swapId) == old(has(l.csvtxWatchList, swapId)))
-//@ ensures @C20,C07 registered-unless-reported: !ghost.csvReported ==> (has(l.csvtxWatchList, swapId) && l.csvtxWatchList[swapId] != nil && l.csvtxWatchList[swapId].TxId == txId && l.csvtxWatchList[swapId].TxVout == vout && l.csvtxWatchList[swapId].Csv == csv)
+//@ requires s != nil && s.csvtxWatchList != nil && !holds(&s.Mutex)
+//@ ensures @C20,C07 back-on-the-list: has(s.csvtxWatchList, swapId)
+//@ assigns s.csvtxWatchList[swapId]
+
+// registration: the output is on the watch list with the data given (C07: a
+// maker's refund watch is never silently dropped); C18: registration is called
+// by an action that holds the swap's mutex, and the CSV callback re-enters that
+// swap's state machine, so it must not run before registration returns (it
+// would wait for the mutex its own caller holds); the immediate check for an
+// already mature output runs in its own goroutine
+//@ func (*BlockchainRpcTxWatcher).AddWaitForCsvTx
+//@ property C20 C07 C18
+//@ requires l != nil && l.csvtxWatchList != nil && !ghost.csvCalledBack
+// (the function takes the watcher's lock itself: no caller can hold it)
+//@ requires !holds(&l.Mutex)
+//@ ensures @C18 no-callback-before-return: !ghost.csvCalledBack
+//@ ensures @C20,C07 registered: has(l.csvtxWatchList, swapId) && l.csvtxWatchList[swapId] != nil && l.csvtxWatchList[swapId].TxId == txId && l.csvtxWatchList[swapId].TxVout == vout && l.csvtxWatchList[swapId].Csv == csv
 
 // block scan for the confirmation height of a spent or not-yet-indexed output
 //@ func (*CommonBlockchainObserver).IsTxInRange
@@ -90,6 +123,7 @@ package txwatcher
 
 // the confirmation callback as used by the observation loop
 //@ callback BlockchainRpcTxWatcher.txCallback
+//@ requires @C18 not-under-the-watcher-lock: !holds(&recv.Mutex)
 //@ requires @C20,in:safetyLimit confirmed-only-when-deep: err == nil ==> (ghost.lookupOK && mi(uint32(ghost.tipH)) - mi(ghost.firstSeen) + 1 >= mi(recv.requiredConfs))
 //@ requires @C20,in:safetyLimit confirmed-only-in-window: err == nil ==> mi(lastrecv(newBlock)) < mi(startingHeight) + mi(safetyLimit)
 //@ requires @C20,in:safetyLimit once: !ghost.reported
@@ -98,15 +132,15 @@ package txwatcher
 //@ assigns nothing
 
 //@ func (*BlockchainRpcTxWatcher).observationLoop
-//@ property C20
-//@ requires l != nil && l.observer != nil && !ghost.reported
+//@ property C20 C18
+//@ requires l != nil && l.observer != nil && !ghost.reported && !holds(&l.Mutex)
 // valid heights: the deadline does not wrap 32 bits, no block at height 2^32-1
 //@ requires mi(startingHeight) + mi(safetyLimit) < 4294967295
 //@ loop 0 invariant !ghost.reported
 //@ ensures @C20 reported-on-exit: ghost.reported || ghost.cancelSeen
 
-// per-block CSV check of every registered output: the callback fires only for an
-// output whose gettxout answer shows at least its registered csv confirmations
+// per-block CSV check of every registered output (a snapshot of the list; the
+// lock is released before any callback)
 //@ func (*BlockchainRpcTxWatcher).HandleCsvTx
-//@ property C20
-//@ requires s != nil && s.csvtxWatchList != nil
+//@ property C20 C18
+//@ requires s != nil && s.csvtxWatchList != nil && !holds(&s.Mutex)
